@@ -12,7 +12,8 @@ Verdict(e) ==
       renders == {j \in DOMAIN sess : sess[j].op = "render"}
       \* an element whose default rendering is itself empty cannot tell "default" from "empty"
       Matches(o, x) == o = x \/ (o = "empty-also-by-default" /\ x \in {"default", "empty"})
-      wrongClass == {j \in renders : ~Matches(e.obs[j].class, ExpectedClass(e.cfg, sess, j))}
+      judged == {j \in DOMAIN sess : sess[j].op \in {"render", "addcopy"}}
+      wrongClass == {j \in judged : ~Matches(e.obs[j].class, ExpectedClass(e.cfg, sess, j))}
       impure == {p \in renders \X renders : SameTextDue(sess, p[1], p[2]) /\ e.obs[p[1]].hash # e.obs[p[2]].hash}
       anyDetach == \E j \in DOMAIN sess : sess[j].op = "detach"
   IN IF Len(e.obs) # Len(sess) THEN "harness: observations missing"
